@@ -33,13 +33,24 @@ Init ==
     /\ plan \in [cfg : Cfgs, stores : StoreLists, cers : CerLists]
     /\ run = 1
     /\ idx = 0
-    /\ st = [store |-> plan.stores[1], nnew |-> 0, cer |-> Idle]
+    /\ st = [store |-> plan.stores[1], nnew |-> 0, cer |-> Idle, cfg |-> plan.cfg]
     /\ obs = P!Observe(P!NoObs, [ev |-> "Reset", run |-> 1, cfg |-> plan.cfg, store |-> plan.stores[1]])
     /\ phase = "idle"
 
 \* begin the next ceremony of the run
+\* the environment changes between two ceremonies (a descriptor with api "env"): what the user-validation method
+\* and the store report from now on
+NewCfg(cfg, r) == [cfg EXCEPT !.uvCap = r.uvCap, !.upCap = r.upCap, !.disc = r.disc]
+Reconfig ==
+    /\ phase = "idle" /\ idx < Len(plan.cers) /\ plan.cers[idx + 1].api = "env"
+    /\ LET n == NewCfg(st.cfg, plan.cers[idx + 1].req) IN
+       /\ st' = [st EXCEPT !.cfg = n]
+       /\ obs' = P!Observe(obs, [ev |-> "Reconfig", d |-> [cfg |-> n]])
+    /\ idx' = idx + 1
+    /\ UNCHANGED <<plan, run, phase>>
+
 Begin ==
-    /\ phase = "idle" /\ idx < Len(plan.cers)
+    /\ phase = "idle" /\ idx < Len(plan.cers) /\ plan.cers[idx + 1].api # "env"
     /\ LET c == plan.cers[idx + 1] IN
        /\ st' = [st EXCEPT !.cer = IF c.api = "client" THEN CL!NewCer(c.op, c.req, c.env) ELSE C!NewCer(c.api, c.op, c.req, c.env)]
        /\ obs' = P!Observe(obs, [ev |-> "Begin", d |-> [api |-> c.api, op |-> c.op, req |-> c.req, env |-> c.env]])
@@ -50,9 +61,9 @@ Begin ==
 \* one step of the ceremony in progress: a trait call or the result
 StepCer ==
     /\ phase = "running" /\ ~st.cer.done
-    /\ LET r == IF st.cer.api = "client" THEN CL!Step(plan.cfg, st.cer, st.store, st.nnew)
-                ELSE C!Step(plan.cfg, st.cer, st.store, st.nnew) IN
-       /\ st' = [store |-> r.store, nnew |-> r.nnew, cer |-> r.cer]
+    /\ LET r == IF st.cer.api = "client" THEN CL!Step(st.cfg, st.cer, st.store, st.nnew)
+                ELSE C!Step(st.cfg, st.cer, st.store, st.nnew) IN
+       /\ st' = [st EXCEPT !.store = r.store, !.nnew = r.nnew, !.cer = r.cer]
        /\ obs' = P!Observe(obs, r.ev)
     /\ UNCHANGED <<plan, run, idx, phase>>
 
@@ -68,11 +79,11 @@ NextRun ==
     /\ phase = "idle" /\ idx = Len(plan.cers) /\ run < Len(plan.stores)
     /\ run' = run + 1
     /\ idx' = 0
-    /\ st' = [store |-> plan.stores[run + 1], nnew |-> 0, cer |-> Idle]
+    /\ st' = [store |-> plan.stores[run + 1], nnew |-> 0, cer |-> Idle, cfg |-> plan.cfg]
     /\ obs' = P!Observe(obs, [ev |-> "Reset", run |-> run + 1, cfg |-> plan.cfg, store |-> plan.stores[run + 1]])
     /\ UNCHANGED <<plan, phase>>
 
-Next == Begin \/ StepCer \/ Snap \/ NextRun
+Next == Begin \/ Reconfig \/ StepCer \/ Snap \/ NextRun
 Spec == Init /\ [][Next]_vars
 
 Done == phase = "idle" /\ idx = Len(plan.cers) /\ run = Len(plan.stores)
@@ -355,7 +366,13 @@ C02cq_Cers == { c \in C02c_Cers : Len(c) = 3 \/ c[1].req.chal \in {"c0", "c32"} 
 C18i_Cfgs == { [BaseCfg EXCEPT !.hmac = h, !.uvCap = u, !.upCap = p, !.disc = d] :
                  h \in {"off", "uvonly"}, u \in {"none", "unconfigured", "configured"}, p \in BOOLEAN,
                  d \in {"full", "nondisc", "forced"} }
+Env(u, p, d) == [api |-> "env", op |-> "reconfig", req |-> [uvCap |-> u, upCap |-> p, disc |-> d], env |-> BaseEnv]
 C18i_Cers == { << Cer("ctap2", "info", BaseReq, [BaseEnv EXCEPT !.cancelAt = k]) >> : k \in {-1, 0, 1} }
+              \* the state of the authenticator includes what its environment reports now: capabilities asked before
+              \* and after the user enrols / the store changes its support
+              \cup { << Cer("ctap2", "info", BaseReq, BaseEnv), Env(u, p, d), Cer("ctap2", "info", BaseReq, BaseEnv),
+                        Cer("ctap2", "mc", [BaseReq EXCEPT !.rk = TRUE, !.uv = TRUE], BaseEnv) >> :
+                      u \in {"none", "unconfigured", "configured"}, p \in BOOLEAN, d \in {"full", "nondisc", "forced"} }
 
 -----------------------------------------------------------------------------
 (* C17: U2F histories over two applications and key handles of several lengths *)
@@ -376,8 +393,16 @@ C17_Cers ==
 
 -----------------------------------------------------------------------------
 (* C13: every status byte as a store fault under the client                 *)
+C13_Cfgs == { [BaseCfg EXCEPT !.disc = d] : d \in {"full", "nondisc", "forced"} }
 C13_Cers ==
     { << Cer("client", "ga", BaseCReq, [BaseEnv EXCEPT !.faults = <<b, 0, 0>>]) >> : b \in 1..255 } \cup
     { << Cer("client", "mc", BaseCReq, [BaseEnv EXCEPT !.faults = <<b, 0, 0>>]) >> : b \in 1..255 }
+
+\* C18: every status byte a store can fail with, at every fallible call, through both APIs
+C18s_Cers ==
+    { << Cer("ctap2", "ga", [BaseReq EXCEPT !.allow = <<"c1">>, !.allowGiven = TRUE], [BaseEnv EXCEPT !.faults = f]) >> :
+        f \in { <<b, 0, 0>> : b \in 1..255 } \cup { <<0, b, 0>> : b \in 1..255 } }
+    \cup
+    { << Cer("ctap2", "mc", [BaseReq EXCEPT !.user = "u3"], [BaseEnv EXCEPT !.faults = <<b, 0, 0>>]) >> : b \in 1..255 }
 
 =============================================================================
